@@ -4,7 +4,7 @@
 //! the facts the comparison needs are printed.  Facts are computed here from the typed IR, independently of the
 //! exporter: which globals are threaded, which function (transitively) needs which of them, which parameters are
 //! out / inout, how many parameters have defaults.
-//! Output: M2 ;; threaded g,.. ;; fn <name> req=g,.. outs=i:kind,.. defaults=n params=n method=0|1 called=0|1 ;; ... ;; HLSL <text> ;; MSL <text>
+//! Output: M2 ;; threaded g,.. ;; fn <name> req=g,.. outs=i:kind,.. defaults=n params=n method=0|1 called=0|1 shadow=m:name,l:name ;; ... ;; HLSL <text> ;; MSL <text>
 //!         | SKIP <why>
 use crate::common::*;
 use rssl::ir;
@@ -23,6 +23,19 @@ fn uses_of_expr(e: &ir::Expression, globals: &mut BTreeSet<u32>, calls: &mut BTr
         Constructor(_, slots) => for s in slots { uses_of_expr(&s.expr, globals, calls); },
         IntrinsicOp(_, args) => for a in args { uses_of_expr(a, globals, calls); },
         Literal(_) | Variable(_) | MemberVariable(_, _) | ConstantVariable(_) | EnumValue(_) | SizeOf(_) => {}
+    }
+}
+
+fn locals_of_block(b: &ir::ScopeBlock, out: &mut Vec<ir::VariableId>) {
+    use ir::StatementKind::*;
+    for s in &b.0 {
+        match &s.kind {
+            Var(v) => out.push(v.id),
+            Block(b) | If(_, b) | While(_, b) | DoWhile(b, _) | Switch(_, b) => locals_of_block(b, out),
+            IfElse(_, a, b) => { locals_of_block(a, out); locals_of_block(b, out); }
+            For(init, _, _, b) => { if let ir::ForInit::Definitions(ds) = init { for d in ds { out.push(d.id); } } locals_of_block(b, out); }
+            _ => {}
+        }
     }
 }
 
@@ -95,9 +108,20 @@ pub fn facts(m: &ir::Module) -> Result<Vec<String>, String> {
         let defaults = imp.params.iter().filter(|p| p.default_expr.is_some()).count();
         let is_method = m.struct_registry.iter().any(|s| s.methods.contains(&fid));
         let called = direct.values().any(|(_, c)| c.contains(&fid.0));
-        out.push(format!("fn {} req={} outs={} defaults={} params={} method={} called={}", h,
+        // what a parameter added for a threaded global would hide or clash with inside this function: members of the
+        // struct the method belongs to (m:), parameters and locals of the function (l:)
+        let req_names: Vec<String> = req.iter().map(|g| mn.get_name_leaf(NameSymbol::GlobalVariable(ir::GlobalId(*g))).to_string()).collect();
+        let mut shadow: Vec<String> = Vec::new();
+        if let Some(st) = m.struct_registry.iter().find(|s| s.methods.contains(&fid)) {
+            for mem in &st.members { if req_names.contains(&mem.name) { shadow.push(format!("m:{}", mem.name)); } }
+        }
+        let mut locals: Vec<ir::VariableId> = imp.params.iter().map(|p| p.id).collect();
+        locals_of_block(&imp.scope_block, &mut locals);
+        for v in locals { let n = mn.get_name_leaf(NameSymbol::LocalVariable(v)).to_string(); if req_names.contains(&n) { shadow.push(format!("l:{}", n)); } }
+        shadow.sort(); shadow.dedup();
+        out.push(format!("fn {} req={} outs={} defaults={} params={} method={} called={} shadow={}", h,
             req.iter().map(|g| hn.get_name_leaf(NameSymbol::GlobalVariable(ir::GlobalId(*g))).to_string()).collect::<Vec<_>>().join(","),
-            outs.join(","), defaults, imp.params.len(), is_method as u8, called as u8));
+            outs.join(","), defaults, imp.params.len(), is_method as u8, called as u8, shadow.join(",")));
     }
     // locals must be named alike for the two targets as well
     for id in m.variable_registry.iter() {
